@@ -29,6 +29,7 @@ type FilterSpec struct {
 	KeySet              string   `json:"keySet"`           // configured static key set: "" = k1+k2, "k3"
 	After               string   `json:"after"`            // a mock filter after the OIDC filter in the same chain: "" | "deny" | "allow"
 	SecretRef           string   `json:"secretRef"`        // take the client secret from this Kubernetes Secret (driven by "secret" steps)
+	LogoutSlash         bool     `json:"logoutSlash"`      // the configured logout path ends in a slash
 	DiscoveryDoc        string   `json:"discoveryDoc"`     // variant of the discovery document: "" | "pkcePlainOnly" | "noEndSession"
 	NoLogoutRedirect    bool     `json:"noLogoutRedirect"` // logout configured without redirect_uri (taken from discovery)
 	inheritedLogoutPath string
